@@ -2,6 +2,7 @@ package main
 
 import (
 	"fmt"
+	"os"
 	"path/filepath"
 	"sort"
 	"strings"
@@ -27,7 +28,7 @@ func recPaths(ti *mon.TraceIndex, rec string) []string {
 func c08(args []string) {
 	c := chk.New("C08", "exploration", args)
 	c.Build(false)
-	c.Rule("chains and trees of 1-3 processing stages with 3-40 items; recorder components in front of every in-port (single sender, so their log is the arrival order) and behind every out-port; task durations assigned so that completion order is the reverse or a random permutation of arrival order; slots in {2,4,16}, SCIPIPE_BUFSIZE in {1,3,128}, slow downstream recorders (buffers fill up), some middle tasks skipped because their outputs pre-exist, fan-in of two upstreams through a recording merge point; bundled components between recorders (FileCombinator: first occurrences on each out-port in arrival order; IPSelectorSync: selected items in arrival order; MapToTags: pass-through) with file names whose arrival order is not lexicographic; oracle: sequence behind each out-port == image (through the reference's task -> out-path map) of the sequence recorded in front of the in-port; projection of a merged sequence onto each upstream == that upstream's own output sequence; every item passing a recorder behind a non-streaming out-port of a command / Go-function process must be a file at that moment (the recorder stats it on reception). distinct_nontrivial = runs in which the completion order of some process really differed from its arrival order (measured from the commands' end stamps), distinct by (shape, config, permutation)")
+	c.Rule("chains and trees of 1-3 processing stages with 3-40 items; recorder components in front of every in-port (single sender, so their log is the arrival order) and behind every out-port; task durations assigned so that completion order is the reverse or a random permutation of arrival order; slots in {2,4,16}, SCIPIPE_BUFSIZE in {1,3,128}, slow downstream recorders (buffers fill up), some middle tasks skipped because their outputs pre-exist, fan-in of two upstreams through a recording merge point; bundled components between recorders (FileCombinator: first occurrences on each out-port in arrival order; IPSelectorSync: selected items in arrival order; MapToTags: pass-through, also with a map function that tags only every third file; sub-stream members in a joined placeholder, also with a file arriving twice) with file names whose arrival order is not lexicographic; oracle: sequence behind each out-port == image (through the reference's task -> out-path map) of the sequence recorded in front of the in-port; projection of a merged sequence onto each upstream == that upstream's own output sequence; every item passing a recorder behind a non-streaming out-port of a command / Go-function process must be a file at that moment (the recorder stats it on reception). distinct_nontrivial = runs in which the completion order of some process really differed from its arrival order (measured from the commands' end stamps), distinct by (shape, config, permutation)")
 	c.Assume("recorders are harness components written against the public BaseProcess/InPort/OutPort API")
 	rng := c.Rand("c08")
 	type job struct {
@@ -307,12 +308,12 @@ func c08(args []string) {
 	// occurrences of the items follow their arrival order), IPSelectorSync (selected tuples in arrival order),
 	// MapToTags (pass-through in arrival order). File names are chosen so that arrival order is not lexicographic,
 	// and a slow recorder behind the component fills the buffers.
-	ncomp := c.Pick(9, 36)
+	ncomp := c.Pick(12, 48)
 	run.Parallel(ncomp, func(i int) {
 		root := c.CaseDir()
 		defer c.Drop(root)
-		kind := []string{"combinator", "selector", "maptotags"}[i%3]
-		names := [][]string{{"s9.txt", "s10.txt", "s2.txt", "s1.txt"}, {"hg38.fa", "hg19.fa", "mm10.fa"}, {"z.txt", "y.txt", "x.txt", "w.txt", "v.txt"}}[(i/3)%3]
+		kind := []string{"combinator", "selector", "maptotags", "joinorder"}[i%4]
+		names := [][]string{{"s9.txt", "s10.txt", "s2.txt", "s1.txt", "s6.txt", "s7.txt", "s3.txt", "s12.txt", "s4.txt"}, {"hg18.fa", "hg38.fa", "mm9.fa", "hg19.fa", "dm6.fa", "mm10.fa"}, {"z.txt", "y.txt", "x.txt", "w.txt", "v.txt"}}[(i/3)%3]
 		s := &spec.Spec{Name: fmt.Sprintf("comporder_%s%d", kind, i), MaxTasks: 2, Sources: map[string]string{}}
 		mksrc := func(name, prefix string) {
 			src := &spec.Proc{Name: name, Kind: spec.KFileSource}
@@ -339,9 +340,17 @@ func c08(args []string) {
 				&spec.Proc{Name: "OA", Kind: spec.KRecorder, DelayMS: slow})
 			s.Conns = append(s.Conns, &spec.Conn{From: "srcA.out", To: "RA.in"}, &spec.Conn{From: "RA.out", To: "SEL.a"}, &spec.Conn{From: "SEL.a", To: "OA.in"})
 			pairs["RA"] = "OA"
+		case "joinorder":
+			// the members of a sub-stream reach the joined placeholder in arrival order, also when a file arrives twice
+			mksrc("srcA", "a_")
+			srcp := s.Proc("srcA")
+			srcp.Files = append(srcp.Files, srcp.Files[0], srcp.Files[1])
+			s.Procs = append(s.Procs, &spec.Proc{Name: "RA", Kind: spec.KRecorder}, &spec.Proc{Name: "SS", Kind: spec.KSubStream},
+				&spec.Proc{Name: "JN", Kind: spec.KCmd, Cmd: "echo {i:in|join:,} > {o:out}", Outs: []*spec.Out{{Port: "out", Pattern: "joined.out"}}})
+			s.Conns = append(s.Conns, &spec.Conn{From: "srcA.out", To: "RA.in"}, &spec.Conn{From: "RA.out", To: "SS.in"}, &spec.Conn{From: "SS.substream", To: "JN.in"})
 		case "maptotags":
 			mksrc("srcA", "a_")
-			s.Procs = append(s.Procs, &spec.Proc{Name: "RA", Kind: spec.KRecorder}, &spec.Proc{Name: "T", Kind: spec.KMapToTags, Tags: []*spec.TagRule{{Key: "k", Rule: "stem"}}},
+			s.Procs = append(s.Procs, &spec.Proc{Name: "RA", Kind: spec.KRecorder}, &spec.Proc{Name: "T", Kind: spec.KMapToTags, Tags: []*spec.TagRule{{Key: "k", Rule: []string{"stem", "sparse3"}[(i/3)%2]}}},
 				&spec.Proc{Name: "OA", Kind: spec.KRecorder, DelayMS: slow})
 			s.Conns = append(s.Conns, &spec.Conn{From: "srcA.out", To: "RA.in"}, &spec.Conn{From: "RA.out", To: "T.in"}, &spec.Conn{From: "T.out", To: "OA.in"})
 			pairs["RA"] = "OA"
@@ -357,6 +366,17 @@ func c08(args []string) {
 			return
 		}
 		ti := mon.Index(res.Trace)
+		if kind == "joinorder" {
+			var want []string
+			for _, p := range recPaths(ti, "RA") {
+				want = append(want, "../"+p)
+			}
+			b, _ := os.ReadFile(filepath.Join(res.Wd, "joined.out"))
+			if strings.TrimSpace(string(b)) != strings.Join(want, ",") {
+				c.Violation("order-not-preserved:joined-members", fmt.Sprintf("sub-stream members arrived as %v, the joined placeholder expanded to %q", recPaths(ti, "RA"), strings.TrimSpace(string(b))), map[string]interface{}{"spec": s, "cfg": cfg})
+				return
+			}
+		}
 		for front, behind := range pairs {
 			arrived := recPaths(ti, front)
 			if kind == "selector" {
